@@ -215,7 +215,10 @@ class PerformanceTable:
         assert isinstance(check_neg, pd.DataFrame)
 
         def check_coverage(df, label):
-            if len(df.fl.unique()) * len(df.mass.unique()) != len(df):
+            if (
+                df.duplicated(subset=['fl', 'mass']).any()
+                or len(df.fl.unique()) * len(df.mass.unique()) != len(df)
+            ):
                 raise ValueError(
                     f'Performance data at {label} ROC does not have full coverage'
                 )
